@@ -16,7 +16,7 @@ for d in "$WT"/_mut/*/; do
   git -C "$WT" checkout -q -- .
   echo "  demo clean=$d0 mutated=$d1 ; tests: $t"
   ok=no; [ "$d0" = 0 ] && [ "$d1" != 0 ] && echo "$t" | grep -q '^70 passed' && ok=yes
-  res=$(/verif/tools/mutant.sh "$d/patch.diff" $CHECKS 2>&1)
+  if [ -n "${SKIPCHECK:-}" ]; then res="(checks skipped; run tools/reseed.py)"; else res=$(/verif/tools/mutant.sh "$d/patch.diff" $CHECKS 2>&1); fi
   echo "$res" | sed 's/^/  /' | cut -c1-330
   if [ "$ok" = yes ]; then
     out=/verif/seeded/$ID-${TAG:-}$i; mkdir -p "$out"
